@@ -673,10 +673,9 @@ class Light(SystemWideDevice, DevicePositionMixin):
     def _get_priority_from_key(self, key):
         if not self.stack:
             return 0
-        if self.stack[0].key == key:
-            return self.stack[0].priority
         try:
-            return [x for x in self.stack if x.key == key][0].priority
+            # a fade-out left behind by remove_from_stack_by_key is not an existing setting of this key
+            return [x for x in self.stack if x.key == key and x.dest_color is not None][0].priority
         except IndexError:
             return 0
 
